@@ -61,7 +61,8 @@ def h_dispatch(ctx, entry, n, have_sgio, have_iscsi, read_write, explicit_initia
     E = env.ENV
     import pyscsi.utils as U
     dev = ctx.str("device", n)
-    init = "iqn.2001-04.org.example:explicit" if explicit_initiator else None
+    # an explicit initiator name: any non-empty string (symbolic characters), not only iqn. names
+    init = ctx.str("initiator", 5) if explicit_initiator else None
     if entry == "init_device":
         args = (dev, read_write) + ((init,) if init else ())
         st, r = ctx.attempt(U.init_device, *args)
@@ -99,7 +100,7 @@ def h_dispatch(ctx, entry, n, have_sgio, have_iscsi, read_write, explicit_initia
             ctx.check("default initiator name is used", isinstance(c.initiator_name, str)
                       and c.initiator_name.startswith(ctx.oracle("iqn.2018-01.org.pyscsi:")), repr(c.initiator_name))
         elif explicit_initiator:
-            ctx.check("the explicit initiator name is used", c.initiator_name == ctx.oracle(init), repr(c.initiator_name))
+            ctx.check("the explicit initiator name is used", c.initiator_name is init, repr(c.initiator_name))
         ctx.check("URL built from exactly the requested string", E.iscsi_urls[0].url is dev)
         ctx.check("connected exactly once", len([x for x in c.calls if x[0] == "connect"]) == ctx.oracle(1))
         ctx.check("no file opened", len(E.opens) == 0)
